@@ -543,6 +543,8 @@ type FuncContract struct {
 	RawCapacity bool
 	StmtAsserts map[string][]*Clause
 	MustCalls   []*Clause
+	AllCalls    []*Clause
+	NoReturn    bool
 }
 
 type SpecFunc struct {
@@ -1058,6 +1060,16 @@ func parseClause(fc *FuncContract, word, rest, file string, line int) error {
 			fc.StmtAsserts = map[string][]*Clause{}
 		}
 		fc.StmtAsserts[key] = append(fc.StmtAsserts[key], &Clause{Kind: "stmt-assert", Label: label, Tags: tags, Expr: e, Src: src, File: file, Line: line})
+	case "noreturn":
+		fc.NoReturn = true
+	case "all-calls":
+		callee, r2 := splitWord(rest)
+		label, tags, src := parseLabel(r2)
+		e, err := parseSpecExpr(src)
+		if err != nil {
+			return err
+		}
+		fc.AllCalls = append(fc.AllCalls, &Clause{Kind: "all-calls", Label: label, Tags: tags, Expr: e, Src: callee + ": " + src, File: file, Line: line, Callee: callee})
 	case "must-call":
 		// must-call <callee> [label tags] expr   (expr over this function's names and the callee's parameter/result names)
 		callee, r2 := splitWord(rest)
